@@ -59,7 +59,7 @@ func argPaths(ps ...string) func(recv ssa.Value, args []ssa.Value) bool {
 			if p == "_" {
 				continue
 			}
-			if i >= len(args) || pathOf(args[i]) != p {
+			if i >= len(args) || pathOf(args[i]) != bp(p) {
 				return false
 			}
 		}
@@ -68,7 +68,7 @@ func argPaths(ps ...string) func(recv ssa.Value, args []ssa.Value) bool {
 }
 
 func recvPath(p string) func(recv ssa.Value, args []ssa.Value) bool {
-	return func(recv ssa.Value, _ []ssa.Value) bool { return recv != nil && pathOf(recv) == p }
+	return func(recv ssa.Value, _ []ssa.Value) bool { return recv != nil && pathOf(recv) == bp(p) }
 }
 
 func init() {
@@ -113,7 +113,7 @@ func runC16(w *World, r *Report) {
 					}
 					if iff, ok := b.Instrs[len(b.Instrs)-1].(*ssa.If); ok {
 						if bo, ok := iff.Cond.(*ssa.BinOp); ok && bo.Op == token.GTR {
-							if p, _, isLen := lenExpr(bo.X); isLen && p == "trx.Data" && strings.HasSuffix(pathOf(bo.Y), ".dataSize") {
+							if p, _, isLen := lenExpr(bo.X); isLen && p == bp("trx.Data") && strings.HasSuffix(pathOf(bo.Y), ".dataSize") {
 								es = append(es, Edge{b, 1})
 							}
 						}
@@ -159,6 +159,11 @@ func runC16(w *World, r *Report) {
 		if f == nil {
 			continue
 		}
+		trxFrom := "result:.ProtoTrxToTrx"
+		if row.handler == "Reject" {
+			trxFrom = "result:).RemoveAwaitedTransaction"
+		}
+		curBinder = bindNames(f.fn, map[string]string{"in": "param:2", "trx": trxFrom})
 		var effs []ssa.CallInstruction
 		for _, c := range callsTo2(f.fn, row.effect) {
 			recv, args := callArgs(c)
